@@ -353,6 +353,7 @@ def run(tier: str) -> int:
     n, kinds = (3, 3) if tier == "quick" else (4, 4)
     conds = [core.Cond(f"a.record skipping, {n} records, first record kind {k}, per_line={pl}", HARNESS, "check",
                        {"k0": k, "n": n, "kinds": kinds, "per_line": pl}, tmo) for k in range(kinds) for pl in (False, True)]
+    conds.append(core.Cond("a.unusual characters inside string leaves (per-line and whole-file)", HARNESS, "separators", {"kind": "separators"}, tmo))
     conds.append(core.Cond("a.twin", HARNESS, "twin", {"k0": 0, "n": 3, "kinds": 3, "per_line": True}, tmo, expect_violation=True))
     return simple.run_conditions(chk, HARNESS, conds)
 
